@@ -7,6 +7,10 @@ TRUST = ("Trusted base: go/types, go/ssa, go/packages (golang.org/x/tools v0.29.
          "library functions named in the rules behave as documented. Decides structural necessary conditions only; the clauses not decided are listed in DESIGN.md section 4 under the property and in the evidence file's assumptions.")
 # id -> (claimed, category, technique, text)
 P = {
+ 'C01': (True, 'other', 'regexp/syntax analysis of the splitter patterns, backward provenance slices (token -> splitter -> Save -> receiver variable) with a transformer whitelist, converter identity and err==nil dominance, error-edge reachability, must-pass-through for Called/UsedAlias',
+         'Every value path is covered for every input: the regexps admit any value text (newlines included) and any name without "="; no transformer other than the splitter\'s own cuts touches the text; numeric kinds store exactly strconv.Atoi / ParseFloat(_,64) results and only when err == nil, errors are returned; bool stores the negated write-once default, increment current+1, optional-without-value stores nothing. What strconv computes is trusted.'),
+ 'C02': (True, 'other', 'loop-shape analysis of the MinArgs/MaxArgs intake loops on go/ssa (strict bound, start value, one advance + one Save per iteration inside the natural loop), edge-filtered reachability for the per-kind look-ahead checks, look-ahead/Save converter agreement, append-chain order, first-= split, range-expansion shape, definition-time validation',
+         'Structural necessary conditions of the multi-value clauses on every path. Not decided: the arithmetic total of consumed tokens beyond the loop shape.'),
  'C03': (True, 'other', 'token typestate dataflow over go/ssa (no token dropped), who-may-write + provenance slice of the remaining accumulator, once-per-token cycle rule, accumulator hand-off at cursor moves',
          'Every path of parseCLIArgs (normal mode) is covered: each token gets a disposition before the next advance/return, pass-through appends are verbatim, at most once per token and survive command descent, Parse returns the final node\'s list unmodified. Does not decide that the consumed tokens are the right ones.'),
  'C04': (True, 'other', 'dominance of the terminator test over every interpretation effect, edge-region effect scan, look-ahead guard facts, post-bulk-copy reachability (go/ssa CFG)',
